@@ -11,11 +11,10 @@
   Every equation is a linear form (lhs − rhs) in the unknowns (node voltages resp. mesh
   currents) with coefficients in the carrier `K`, i.e. the printed equation at a sample point.
 
-  Each generator has a flag per proposed patch (`patched` for nodal; `pe`, `pi` for mesh).  `false` mirrors the code as it is in /repo
-  (findings F13, C15-c, C15-b, C15-d: constants of a branch relation -- source currents, initial
-  conditions -- are not re-oriented with the component, parallel components are identified by
-  node pair).  `patched = true` mirrors the code after the minimal patches proposed in DESIGN §4;
-  the full-strength theorems of Props/C15 are about that variant, `…_partial` about the other.
+  The mesh generator keeps one switch `pe`: `pe = false` mirrors the code as it is in /repo (finding
+  C15-c, still open: parallel components are identified by node pair), `pe = true` the code after the
+  proposed patch.  The other findings of this property (F13, C15-b, C15-d, C15-g, C15-h) are fixed in
+  /repo and the model mirrors the fixed code only.
   No Mathlib import.
 -/
 import Lcapy.Spec.Laws
@@ -93,25 +92,23 @@ def curEq (kind : Kind) (s : K) : Cpt K → Option (K × K)
   | .I _ _ i => some (0, i)
   | _ => none
 
-/-- contribution of component `c` to the KCL sum at node `k` (`k` is one of its nodes).
-    code as is: `current_equation(V[k] − V[other])`;
-    patched:    ± `current_equation(V[n1] − V[n2])`, negated for a current source. -/
-def kclTerm (patched : Bool) (kind : Kind) (s : K) (k : Nat) (c : Cpt K) : LinForm K :=
+/-- contribution of component `c` to the KCL sum at node `k` (`k` is one of its nodes):
+    `i = current_equation(V[k] − V[other])`; seen from the second node the constant part keeps the
+    component's orientation (`i − 2·i(0)`); a current source is negated (it drives its current out of
+    its first node).  As a linear form: ± (g·(V[n1] − V[n2]) + i0'), i0' = −i0 for a current source. -/
+def kclTerm (kind : Kind) (s : K) (k : Nat) (c : Cpt K) : LinForm K :=
   match nodes2 c, curEq kind s c with
   | some (n1, n2), some (g, i0) =>
-    if patched then
-      let i0' := if isI c then -i0 else i0
-      if k = n1 then ⟨[(n1, g), (n2, -g)], i0'⟩ else ⟨[(n1, -g), (n2, g)], -i0'⟩
-    else
-      if k = n1 then ⟨[(n1, g), (n2, -g)], i0⟩ else ⟨[(n2, g), (n1, -g)], i0⟩
+    let i0' := if isI c then -i0 else i0
+    if k = n1 then ⟨[(n1, g), (n2, -g)], i0'⟩ else ⟨[(n1, -g), (n2, g)], -i0'⟩
   | _, _ => LinForm.zero
 
 /-- the equation `_make_equations` files under node `k`:
     the constraint `V[n1] = V[n2] + Voc` of the first voltage source met at the node, else KCL. -/
-def nodalEq (patched : Bool) (kind : Kind) (s : K) (cs : List (Cpt K)) (k : Nat) : LinForm K :=
+def nodalEq (kind : Kind) (s : K) (cs : List (Cpt K)) (k : Nat) : LinForm K :=
   match (cs.filter (fun c => isV c && incident k c)).head? with
   | some (.V n1 n2 _ v) => ⟨[(n1, 1), (n2, -1)], -v⟩
-  | _ => sumForms ((cs.filter (incident k)).map (kclTerm patched kind s k))
+  | _ => sumForms ((cs.filter (incident k)).map (kclTerm kind s k))
 
 /-- components the nodal formulation refuses (`Dependent sources not handled yet`, two-ports) or
     cannot express as an affine relation at a sample point -/
@@ -128,9 +125,9 @@ def nodeList (cs : List (Cpt K)) : List Nat :=
       | some (a, b) => insertSorted b (insertSorted a acc)
       | none => acc) []).filter (· ≠ 0)
 
-def nodalEqs (patched : Bool) (kind : Kind) (s : K) (cs : List (Cpt K)) : Option (List (Nat × LinForm K)) :=
+def nodalEqs (kind : Kind) (s : K) (cs : List (Cpt K)) : Option (List (Nat × LinForm K)) :=
   if cs.all (nodalSupported kind s) then
-    some ((nodeList cs).map (fun k => (k, nodalEq patched kind s cs k)))
+    some ((nodeList cs).map (fun k => (k, nodalEq kind s cs k)))
   else none
 
 /-! ## the circuit graph (lcapy/circuitgraph.py `from_circuit`) -/
@@ -227,7 +224,7 @@ def accNames (loops : List (List GNode)) (n0 n1 : Nat) : List (Nat × Bool) :=
     | some pq => some (n, pq.1 == .real n0 && pq.2 == .real n1)     -- true: forward, −I_n
     | none => none)
 
-/-- patched `_add_mesh_currents`: the loop passes through the component iff one of its
+/-- `_add_mesh_currents` with the proposed patch for C15-c: the loop passes through the component iff one of its
     consecutive pairs is joined by THIS component's edge; forward iff the pair starts at the
     component's first node -/
 def accEdge (g : List (Edge K)) (loops : List (List GNode)) (idx n0 : Nat) : List (Nat × Bool) :=
@@ -245,10 +242,9 @@ def accCoeffs (acc : List (Nat × Bool)) : List (Nat × K) :=
 def scaleCoeffs (z : K) (l : List (Nat × K)) : List (Nat × K) := l.map (fun p => (p.1, z * p.2))
 
 /-- contribution of the pair (a, b) of loop number `m` to its KVL sum (`_process_loop` body).
-    Two independent switches (one per proposed patch):
-    `pe` -- components are identified by their graph edge (patch for C15-c), else by node names;
-    `pi` -- `voltage_equation(−current)` (patch for C15-d), else `−voltage_equation(current)`. -/
-def meshTerm (pe pi : Bool) (kind : Kind) (s : K) (g : List (Edge K)) (loops : List (List GNode))
+    `pe` -- components are identified by their graph edge (proposed patch for C15-c), else by node
+    names (code as it is).  The value is `voltage_equation(−current)`. -/
+def meshTerm (pe : Bool) (kind : Kind) (s : K) (g : List (Edge K)) (loops : List (List GNode))
     (ab : GNode × GNode) : Option (MeshForm K) :=
   match component g ab.1 ab.2 with
   | none => some ⟨[], 0⟩                                   -- wire: skipped
@@ -262,8 +258,7 @@ def meshTerm (pe pi : Bool) (kind : Kind) (s : K) (g : List (Edge K)) (loops : L
           if isV c then ⟨[], v0⟩
           else
             let cur : List (Nat × K) := accCoeffs (if pe then accEdge g loops idx n0 else accNames loops n0 n1)
-            if pi then ⟨scaleCoeffs (-z) cur, v0⟩               -- voltage_equation(−current)
-            else ⟨scaleCoeffs (-z) cur, -v0⟩                    -- −voltage_equation(current)
+            ⟨scaleCoeffs (-z) cur, v0⟩                          -- voltage_equation(−current)
         let rev : Bool := if pe then ab.1 == .real n0 else (ab.1 == .real n0 && ab.2 == .real n1)
         some (if rev then ⟨scaleCoeffs (-1) v.coeffs, -v.const⟩ else v)
     | _, _ => none
@@ -271,16 +266,16 @@ def meshTerm (pe pi : Bool) (kind : Kind) (s : K) (g : List (Edge K)) (loops : L
 def MeshForm.add (f g : MeshForm K) : MeshForm K := ⟨f.coeffs ++ g.coeffs, f.const + g.const⟩
 
 /-- the mesh equation of one loop -/
-def meshEq (pe pi : Bool) (kind : Kind) (s : K) (g : List (Edge K)) (loops : List (List GNode))
+def meshEq (pe : Bool) (kind : Kind) (s : K) (g : List (Edge K)) (loops : List (List GNode))
     (loop : List GNode) : Option (MeshForm K) :=
   (loopPairs loop).foldr (fun ab acc =>
-    match meshTerm pe pi kind s g loops ab, acc with
+    match meshTerm pe kind s g loops ab, acc with
     | some t, some r => some (t.add r)
     | _, _ => none) (some ⟨[], 0⟩)
 
-def meshEqs (pe pi : Bool) (kind : Kind) (s : K) (cs : List (Cpt K)) (loops : List (List GNode)) :
+def meshEqs (pe : Bool) (kind : Kind) (s : K) (cs : List (Cpt K)) (loops : List (List GNode)) :
     Option (List (MeshForm K)) :=
-  loops.mapM (meshEq pe pi kind s (buildGraph cs) loops)
+  loops.mapM (meshEq pe kind s (buildGraph cs) loops)
 
 /-- decidable vetting of a loop handed in by networkx: at least three distinct graph nodes, every
     consecutive pair joined by an edge of the graph, no edge used twice -/
